@@ -14,6 +14,7 @@ Enumerated completely (nothing sampled):
                 (B) all ordered pairs of REDUCED kinds under two topic namings x outs_jpg x transport
                 (C) 3- and 4-topic sets built by rotation over REDUCED, unsorted topic names
                 (D) the empty set
+                (E) thorough tier only: all ordered pairs of ALL kinds x outs_jpg (wire transport)
 
 Oracle = the statement of C09, nothing more: topics and their order, data, has_image, height, width, format equal;
 raw => pixels identical; jpg => an encoding that already existed is forwarded byte for byte (and then decodes to the
@@ -26,6 +27,8 @@ import json
 
 import cv2
 import numpy as np
+
+from mc.common import pmap
 
 SIZES   = [(1, 1), (1, 2), (2, 1), (1, 7), (3, 5), (9, 16), (17, 33)]    # (height, width); 9x16 is the design's "16x9"; 17x33 spans several JPEG MCUs
 FORMATS = ['GRAY', 'BGR', 'RGB']
@@ -63,7 +66,7 @@ def pattern(fmt, h, w):
     """Smooth image, all channels distinct, rows distinct from columns (a transposition or a channel swap shows)."""
 
     y, x = np.mgrid[0:h, 0:w]
-    lum  = 40 + 8 * y + 5 * x
+    lum  = 30 + (90 * y) // h + (60 * x) // w        # <= 178, +60 for the last channel
 
     if fmt == 'GRAY':
         return lum.astype(np.uint8)
@@ -132,10 +135,17 @@ def all_kinds():
     return [NOIMG] + [(f, h, w, l) for f in FORMATS for (h, w) in SIZES for l in LAYOUTS]
 
 
-def cases():
+def cases(tier='quick'):
     """The complete case list: dicts {topics, kinds, data, outs_jpg, transport, part}."""
 
     kinds = all_kinds()
+
+    if tier == 'thorough':                                                                   # (E) thorough only
+        for i, k1 in enumerate(kinds):
+            for j, k2 in enumerate(kinds):
+                for oj in OUTS:
+                    yield dict(part='E-pairs-full', topics=['main', '_x'], kinds=[k1, k2], data=[i % 5, (i + j + 1) % 5],
+                               outs_jpg=oj, transport='wire')
 
     for kind in kinds:                                                                       # (A)
         for topic in ('main', '_h'):
@@ -293,6 +303,10 @@ def run_case(case):
     return viols
 
 
+def _eval(case):
+    return case, run_case(case)
+
+
 def canon_case(case):
     return json.dumps([case['topics'], case['kinds'], case['data'], case['outs_jpg'], case['transport']])
 
@@ -314,12 +328,12 @@ def run(rep):
 
     seen, nontrivial, sampled = set(), set(), {}
 
-    for case in cases():
-        if rep.only and rep.only not in case['part']:
-            continue
+    todo = [case for case in cases(rep.tier) if not rep.only or rep.only in case['part']]
 
-        viols = run_case(case)
-        key   = canon_case(case)
+    cv2.setNumThreads(1)      # tiny images: OpenCV's own thread pool only costs (and fights the CPU pinning of workers)
+
+    for case, viols in (map(_eval, todo) if len(todo) < 20000 else pmap(_eval, todo, 512)):
+        key = canon_case(case)
 
         seen.add(key)
 
